@@ -27,7 +27,7 @@ def decorate(states, nts, seed, ntypes, nconc, base=0):
 
 def picks_run(ctx, name, nfiles, nts, count, max_tombs=2):
     picks = T.dedupe([T.rand_files(ctx.rng, nfiles, 1, nts, max_tombs=max_tombs) for _ in range(count)])
-    cfg = T.cfg_text('read', nts, nfiles=nfiles, tombmode='none', picks='ThePicks', invariants=INV)
+    cfg = T.cfg_text('read', nts, nfiles=nfiles, tombmode='none', npicks=len(picks), invariants=INV)
     r, states = T.run_family(ctx, cfg, spec=name, extra_files={name + '.tla': T.picks_module(name, picks)}, tag=name)
     if len(states) != len(picks):
         raise vlib.Inconclusive(f'{name}: {len(picks)} picks but {len(states)} valid cases')
@@ -38,41 +38,41 @@ def run(ctx):
     tier = ctx.tier
     cases = []
     cov = {}
+    r, st = T.run_family(ctx, f'TSMMerge.ReadA_{tier}.cfg', tag='readA', timeout=3600)
+    cov['exhaustive_2files_4ts_no_tombstone' if tier == 'quick' else 'exhaustive_2files_4ts_le1tombstone'] = len(st)
+    cases += decorate(st, 4, ctx.seed, 5, 1)
+    r, st = T.run_family(ctx, f'TSMMerge.ReadB_{tier}.cfg', tag='readB', timeout=3600)
+    cov['exhaustive_2files_3ts_le1tombstone_per_file' if tier == 'quick' else 'exhaustive_3files_3ts_le1tombstone'] = len(st)
+    cases += decorate(st, 3, ctx.seed, 5, 1, base=10 ** 6)
     if tier == 'quick':
-        r, st = T.run_family(ctx, 'TSMMerge.Read_quick.cfg', tag='read2')
-        cov['exhaustive_2files_4ts_le1tombstone'] = len(st)
-        cases += decorate(st, 4, ctx.seed, 5, 1)
         st = picks_run(ctx, 'MCRead3', 3, 5, 800)
-        cov['sampled_3files_5ts_le2tombstones_each'] = len(st)
-        cases += decorate(st, 5, ctx.seed, 5, 1, base=10 ** 6)
+        cov['sampled_3files_5ts_le2tombstones_per_file'] = len(st)
+        cases += decorate(st, 5, ctx.seed, 5, 1, base=2 * 10 ** 6)
     else:
-        r, st = T.run_family(ctx, 'TSMMerge.Read_thorough.cfg', tag='read2', timeout=1500)
-        cov['exhaustive_2files_4ts_le1tombstone'] = len(st)
-        cases += decorate(st, 4, ctx.seed, 5, 1)
-        r, st = T.run_family(ctx, 'TSMMerge.Read3_thorough.cfg', tag='read3', timeout=1500)
-        cov['exhaustive_3files_3ts_le1tombstone'] = len(st)
-        cases += decorate(st, 3, ctx.seed, 5, 1, base=10 ** 6)
+        r, st = T.run_family(ctx, 'TSMMerge.ReadB_quick.cfg', tag='readB2', timeout=3600)
+        cov['exhaustive_2files_3ts_le1tombstone_per_file'] = len(st)
+        cases += decorate(st, 3, ctx.seed, 5, 1, base=5 * 10 ** 6)
         st = picks_run(ctx, 'MCRead2', 2, 4, 6000)
-        cov['sampled_2files_4ts_le2tombstones_each'] = len(st)
+        cov['sampled_2files_4ts_le2tombstones_per_file'] = len(st)
         cases += decorate(st, 4, ctx.seed, 5, 1, base=2 * 10 ** 6)
         st = picks_run(ctx, 'MCRead3', 3, 5, 10000)
-        cov['sampled_3files_5ts_le2tombstones_each'] = len(st)
+        cov['sampled_3files_5ts_le2tombstones_per_file'] = len(st)
         cases += decorate(st, 5, ctx.seed, 5, 1, base=3 * 10 ** 6)
         st = picks_run(ctx, 'MCRead4', 4, 4, 4000)
-        cov['sampled_4files_4ts_le2tombstones_each'] = len(st)
+        cov['sampled_4files_4ts_le2tombstones_per_file'] = len(st)
         cases += decorate(st, 4, ctx.seed, 5, 1, base=4 * 10 ** 6)
     binary = ctx.go_build('tsmmerge')
-    res, lines = ctx.replay(binary, cases, args={'shm': 1}, timeout=1500)
+    res, lines = ctx.replay(binary, cases, args={'shm': 1}, timeout=7200)
     ctx.absorb(res, lines)
     ctx.exhaustive = False
     ctx.extra_cov.update(cov)
     ctx.extra_cov['exhaustive_parts'] = [k for k in cov if k.startswith('exhaustive')]
     ctx.rule = ('case = one TLC state: a file layout (files oldest first; <= 2 ordered disjoint blocks per file; tombstone ranges '
                 'per file) with the expected sequences for every seek time -1..NTs and both directions. Exhaustive parts enumerate '
-                'every layout of the stated shape; sampled parts are layouts drawn with VERIF_SEED and given to the spec as the '
-                'constant Picks. Each case is written as one set of real TSM files holding one series per value type (booleans: one '
-                'series per bit of the file index) under a timestamp concretisation that rotates over the cases, and drained with Read{T}Block and Read{T}ArrayBlock '
-                'from every seek time in both directions. non-trivial = two files hold blocks with overlapping time ranges, or a '
+                'every layout of the stated shape; sampled parts are layouts drawn with VERIF_SEED and given to the spec as '
+                'explicit inputs (NPicks / PickAt). Each case is written as one set of real TSM files holding one series per value '
+                'type (booleans: one series per bit of the file index) under a timestamp concretisation that rotates over the '
+                'cases, and drained with Read{T}Block and Read{T}ArrayBlock from every seek time in both directions. non-trivial = two files hold blocks with overlapping time ranges, or a '
                 'tombstone removes a proper part of a block; distinct by layout.')
     ctx.assumptions += [
         'timestamps and seek times lie in [models.MinNanoTime, models.MaxNanoTime] (MinInt64 is not a valid timestamp)',
@@ -86,13 +86,14 @@ def run(ctx):
 
 META = {
     'level': 'model_checking',
-    'text': 'TLC enumerates every two-file layout over 4 timestamps (and, in the thorough tier, three-file layouts) plus seeded '
-            'three/four-file layouts, computes the exact newest-wins sequence for every seek time and direction from the '
-            'set-algebra contract (LWW as the fold of the array Merge, checked as an invariant) and every state is replayed on '
+    'text': 'TLC enumerates every two-file layout over 4 timestamps without tombstones and over 3 timestamps with a tombstone '
+            'range per file (thorough: also 4 timestamps with a tombstone and every three-file layout over 3 timestamps) plus '
+            'seeded two/three/four-file layouts, computes the exact newest-wins sequence for every seek time and direction from '
+            'the set-algebra contract (LWW as the fold of the array Merge, checked as an invariant) and every state is replayed on '
             'real TSM files through FileStore.KeyCursor in scalar and array form for all five value types.',
     'design_ref': '5.2',
-    'note': 'Exhaustive for 2 files x <= 2 blocks x 4 timestamps with at most one tombstone range (quick); larger layouts are '
-            'sampled by seed. One key per cursor; blocks are tiny. Trusted: TLC, the driver\'s drain loop and concretisation.',
+    'note': 'Exhaustive for 2 files x <= 2 blocks per file over 4 timestamps (tombstones: quick over 3 timestamps, thorough over 4); '
+            'larger layouts are sampled by seed. One key per cursor; blocks are tiny. Trusted: TLC, the driver\'s drain loop and concretisation.',
     'technique': 'TLA+ spec (TSMMerge.tla, family read) + TLC input enumeration + replay of every state on real TSM files / KeyCursor',
     'quick_s': 150, 'thorough_s': 1500,
 }
